@@ -132,6 +132,9 @@ type skipVal struct {
 func (x *World) compareWorld(ref *model.Model, skip *skipVal, typed bool) *Violation {
 	u := x.W.Unsafe()
 	for i := ref.EpochLo; i < len(ref.Ents); i++ {
+		if x.onlyEnt != 0 && i != x.onlyEnt-1 {
+			continue
+		}
 		if i >= len(x.H) || x.byHandle[x.H[i]] != i {
 			continue // handle not known yet (entity being created by the current op)
 		}
@@ -514,6 +517,19 @@ func (x *World) inCallback(o int, e ecs.Entity, ptrs []unsafe.Pointer) *Violatio
 		return nil
 	}
 	if x.Or.InCbPtr {
+		// C14: the reported entity itself (components and values before/after the change) and the pointers
+		var skip *skipVal
+		if op.Path == model.PathUnsafe && !pre && (op.K == model.OpNew || op.K == model.OpAdd || op.K == model.OpExchange) {
+			skip = &skipVal{ent: i, cs: op.Cs}
+		}
+		x.onlyEnt = i + 1
+		v := x.compareWorld(ref, skip, false)
+		x.onlyEnt = 0
+		if v != nil {
+			v.Kind = "callback-entity"
+			v.Msg = fmt.Sprintf("%v: in %s callback (must see the entity %s the change): %s", *op, model.EvNames[spec.Event], when, v.Msg)
+			return v
+		}
 		return x.checkCallbackPointers(spec, op, e, ptrs)
 	}
 	// lock state
